@@ -201,6 +201,9 @@ class KeyCache(t.Generic[P, T]):
         self.key_f: t.Callable[P, t.Any] = key_f
         self.inner_f: t.Callable[P, T] = f
         self.cache: t.Dict[t.Tuple[t.Tuple[t.Any, ...], t.Tuple[t.Tuple[str, t.Any], ...]], t.Any] = {}
+        # arguments of unbounded-mode entries, kept alive as long as the entry: ``key_f`` may build keys from ``id()``,
+        # and an id is only unique among objects that are alive at the same time
+        self._refs: t.Dict[t.Any, t.Any] = {}
 
         self._root: t.List[t.Any] = []
         self._root[:] = [self._root, self._root, None, None]
@@ -216,6 +219,7 @@ class KeyCache(t.Generic[P, T]):
                 return t.cast(T, result)
             result = self.inner_f(*args, **kwargs)
             self.cache[key] = result
+            self._refs[key] = (args, kwargs)
             return result
 
         key = self.key_f(*args, **kwargs)
